@@ -1473,3 +1473,14 @@ Section SortIndependent.
       apply NoDup_fst_combine. apply nodup_strs_NoDup. exact HK.
   Qed.
 End SortIndependent.
+
+(* FormatNonStringStyle tags a scalar with the schema's type whatever the scalar holds: a boolean
+   text at an integer-typed position ends up tagged !!int (which no decoder accepts) *)
+Theorem schema_retag_refuted :
+  exists (nonstr : string -> bool) h v,
+    nonstr v = true /\ v = "true" /\ h_tag h = "!!bool" /\
+    h_tag (fmt_nonstring nonstr ["integer"] "" h v) = "!!int".
+Proof.
+  exists (fun _ => true), (mkHdr "" "" "" "" "!!bool" 0), "true".
+  repeat split; vm_compute; reflexivity.
+Qed.
